@@ -199,7 +199,14 @@ class StmtMixin:
                     self.list_extend(s2, cur, rhs, s)
                 else:
                     new = self.binop(s.op, cur, rhs, s, s2)
-                    self.copy_into(s2, cur, new, s)
+                    if isinstance(cur, Ref) and isinstance(new, Ref) and isinstance(s2.obj(new), HArr) and s2.obj(new).kind == o.kind:
+                        # in-place elementwise update of a whole array: the buffer now holds the result's contents (same length:
+                        # the elementwise operation already required equal lengths); no extra quantified copy
+                        mo = s2.mut(cur.ref)
+                        mo.a = s2.obj(new).a
+                        self.write_back(s2, cur.ref)
+                    else:
+                        self.copy_into(s2, cur, new, s)
             else:
                 new = self.binop(s.op, cur, rhs, s, s2)
                 self.store(s.target, new, s2, s)
